@@ -25,16 +25,22 @@ K_DIPOLE = E_ANGSTROM_TO_DEBYE * DEBYE_TO_AU
 assert abs(K_DIPOLE * 0.529177210903 - 1.0) < 1e-4
 
 
+def n_basis(z, nbf=4):
+    """basis functions on an atom: H 1s; sp elements 4; with the 9-function layout (PM6) Al..Cl carry d functions"""
+    if z == 0:
+        return 0
+    if z == 1:
+        return 1
+    if nbf == 9 and 13 <= z <= 17:
+        return 9
+    return 4
+
+
 def orbital_index(species_row, nbf=4):
     """indices of the real basis functions inside the padded (nbf*molsize) orbital space"""
     idx = []
     for a, z in enumerate(species_row):
-        if z == 0:
-            continue
-        if z == 1:
-            idx.append(nbf * a)
-        else:
-            idx.extend(range(nbf * a, nbf * a + nbf))
+        idx.extend(range(nbf * a, nbf * a + n_basis(int(z), nbf)))
     return np.array(idx, dtype=int)
 
 
